@@ -302,8 +302,16 @@ def binop_cases(op, pairs, kind="int", tag=""):
         out.append(Case(f"{tag}{op}/{kind}/runtime/{i}",
                         f"f := (x: {ty}, y: {ty}) -> {rty} {{ return x {op} y }}; f(a, b)", exp, vs,
                         what=f"{a!r} {op} {b!r} (run-time operands)"))
+        # one operand constant, the other run-time: create_from_instructions sees (non-constant, constant)
+        out.append(Case(f"{tag}{op}/{kind}/mixed_rc/{i}", f"f := (x: {ty}) -> {rty} {{ return x {op} b }}; f(a)", exp, vs,
+                        what=f"x {op} {b!r} with x = {a!r} at run time"))
+        out.append(Case(f"{tag}{op}/{kind}/mixed_cr/{i}", f"f := (y: {ty}) -> {rty} {{ return a {op} y }}; f(b)", exp, vs,
+                        what=f"{a!r} {op} y with y = {b!r} at run time"))
         if op in COMPOUND:
             exp2 = exp if isinstance(exp, Err) else (exp, exp)
+            out.append(Case(f"{tag}{op}/{kind}/compound_const_rhs/{i}",
+                            f"f := (x: {ty}) -> ({ty}, {ty}) {{ m := mut x; r := (m {COMPOUND[op]} b); return (r, *m) }}; f(a)",
+                            exp2, vs, what=f"m := mut {a!r}; m {COMPOUND[op]} {b!r} (literal right-hand side)"))
             # inside a function body: Code::exec_unscoped drops the error of a non-last top-level
             # statement (observation D3 in DESIGN), which would mask the operator's own error
             out.append(Case(f"{tag}{op}/{kind}/compound/{i}",
